@@ -31,7 +31,7 @@ def run_one(R, name, patch, pid):
     b = sh(f"cd {R}/harness && cargo build --release --offline", env=e)
     if b.returncode != 0:
         return "BUILD-FAILED " + b.stderr[-300:].replace("\n", " ")
-    if pid in ("C17", "C19"):
+    if pid in ("C16", "C17", "C19"):
         b = sh(f"cd {R}/repo && cargo build --release --offline --bins --target-dir {R}/target/repo-bins", env=e)
         if b.returncode != 0:
             return "BINS-BUILD-FAILED"
